@@ -23,6 +23,12 @@ all byte strings:
 * `keepraw_span` — `KeepRaw::decode` stores exactly the generic span whenever the inner decoder
   stops where the first item ends (the `ConsumesItem` hypothesis).
 
+* `proper_prefix_not_item`, `decoded_span_is_one_item`, `underconsuming_decoder_span_not_item` — CBOR
+  is prefix-free, so a typed decoder that stops before the end of the item (a break byte left
+  unread, trailing elements ignored) makes `KeepRaw` keep bytes that are not one well-formed item
+  and differ from the wire item: exactly what the stream's oracle (span of the strict parser)
+  compares against;
+
 NOT proved (why this is `partial`): that pallas' typed era decoders satisfy `ConsumesItem` and
 that `MultiEraTx::hash` etc. read the `KeepRaw` of the right element — this is compared, not
 proved: stream `idhash` checks pallas against these definitions on every corpus tx / block /
@@ -283,6 +289,86 @@ theorem keepraw_span {α} (inner : Bytes → Nat → Option (α × Nat)) (all : 
       simp only [hp, Option.some.injEq] at hs
       rw [← hs]; simp
 
+/-! ## a decoder that stops early is detectable: its span is not an item -/
+
+/-- CBOR is prefix-free: no proper prefix of a well-formed item is itself a well-formed item -/
+theorem proper_prefix_not_item (i : Item) (wi : i.wf = true) (raw suf : Bytes)
+    (h : i.encode = raw ++ suf) (hs : suf ≠ []) : isSingleItem raw = false := by
+  cases hr : isSingleItem raw with
+  | false => rfl
+  | true =>
+    obtain ⟨j, wj, rfl⟩ := (isSingleItem_iff raw).mp hr
+    have a := parseItem_encode j suf wj
+    have b := parseItem_encode i [] wi
+    rw [List.append_nil, h, a] at b
+    cases b
+    exact absurd rfl hs
+
+/-- the span the oracle hashes (the first item of the input, as delimited by the strict generic
+    parser) is always exactly one well-formed item -/
+theorem decoded_span_is_one_item (bs span : Bytes) (h : firstSpan bs = some span) :
+    isSingleItem span = true ∧ ∃ rest, bs = span ++ rest := by
+  unfold firstSpan at h
+  cases hp : parseItem bs with
+  | none => simp [hp] at h
+  | some p =>
+    obtain ⟨i, r⟩ := p
+    obtain ⟨e, wi⟩ := parseItem_sound bs i r hp
+    simp only [hp, Option.some.injEq] at h
+    subst e
+    have : span = i.encode := by rw [← h]; simp
+    subst this
+    exact ⟨isSingleItem_encode i wi, r, rfl⟩
+
+/-- **the general fact behind a left-over break byte**: if the inner decoder of a `KeepRaw` stops
+    before the end of the item (`e < start + |span|`, e.g. it never reads the `ff` that closes an
+    indefinite-length container, or ignores trailing array elements), the bytes `KeepRaw` keeps are
+    NOT one well-formed item and differ from the wire item — whatever is hashed is not the item
+    that appeared on the wire -/
+theorem underconsuming_decoder_span_not_item {α} (inner : Bytes → Nat → Option (α × Nat)) (all : Bytes)
+    (start : Nat) (a : α) (raw : Bytes) (e : Nat)
+    (h : keepRawDecode inner all start = some ((a, raw), e))
+    (span : Bytes) (hspan : firstSpan (all.drop start) = some span)
+    (hlt : e < start + span.length) :
+    isSingleItem raw = false ∧ raw ≠ span := by
+  unfold keepRawDecode at h
+  cases hi : inner all start with
+  | none => simp [hi] at h
+  | some p =>
+    obtain ⟨a', e'⟩ := p
+    simp only [hi, Option.some.injEq, Prod.mk.injEq] at h
+    obtain ⟨⟨rfl, hraw⟩, rfl⟩ := h
+    obtain ⟨hone, rest, hall⟩ := decoded_span_is_one_item _ span hspan
+    obtain ⟨i, wi, rfl⟩ := (isSingleItem_iff span).mp hone
+    -- raw is the proper prefix of the item of length e' - start
+    have hr : raw = i.encode.take (e' - start) := by
+      rw [← hraw, hall, List.take_append_of_le_length (by omega)]
+    have hsplit : i.encode = raw ++ i.encode.drop (e' - start) := by rw [hr, List.take_append_drop]
+    have hne : i.encode.drop (e' - start) ≠ [] := by
+      intro hnil
+      have := congrArg List.length hnil
+      simp only [List.length_drop, List.length_nil] at this
+      have hlen := size_le i
+      omega
+    refine ⟨proper_prefix_not_item i wi raw _ hsplit hne, fun heq => ?_⟩
+    rw [heq] at hsplit
+    have := congrArg List.length hsplit
+    simp only [List.length_append, List.length_drop] at this
+    have hpos : 0 < (i.encode.drop (e' - start)).length := List.length_pos_iff.mpr hne
+    simp only [List.length_drop] at hpos
+    omega
+
+/-- `MultiEraHeader::decode(tag, subtag, ·).hash()` in the model: which prefix each entry point uses -/
+theorem headerHashN2N_cases (span : Bytes) :
+    headerHashN2N 0 (some 0) span = Blake2b.blake2b256 (0x82 :: 0x00 :: span) ∧
+    (∀ st, st ≠ some 0 → headerHashN2N 0 st span = Blake2b.blake2b256 (0x82 :: 0x01 :: span)) ∧
+    (∀ t st, 1 ≤ t → headerHashN2N t st span = Blake2b.blake2b256 span) := by
+  refine ⟨by simp [headerHashN2N, byronPrefixed], ?_, ?_⟩
+  · intro st hst; simp [headerHashN2N, byronPrefixed, hst]
+  · intro t st ht
+    have : t ≠ 0 := by omega
+    simp [headerHashN2N, this]
+
 /-! ## Non-vacuity: the same array `[[1], 2]` with a definite and an indefinite element 0 -/
 
 example : elemSpan 0 [0x82, 0x81, 0x01, 0x02] = some [0x81, 0x01] := by decide
@@ -291,5 +377,7 @@ example : elemSpan 0 [0x82, 0x81, 0x18, 0x01, 0x02] = some [0x81, 0x18, 0x01] :=
 example : elemSpan 1 [0x9f, 0x81, 0x01, 0x02, 0xff] = some [0x02] := by decide
 example : elemSpan 0 [0x82, 0x81, 0x01] = none := by decide
 example : byronPrefixed 1 [0x85, 0x00] = [0x82, 0x01, 0x85, 0x00] := by decide
+-- `[{_ }]` with an indefinite empty map: the full item is one item, the bytes without the break are not
+example : isSingleItem [0x81, 0xbf, 0xff] = true ∧ isSingleItem [0x81, 0xbf] = false := by decide
 
 end PallasVerif.Props.C05
